@@ -494,13 +494,17 @@ impl<'r, 'a> St<'r, 'a> {
                     let ids: Vec<PoisonId> = spec.poison_ids(&spec.targets[ctx.acq.target], if ctx.private { None } else { Some(ctx.acq.target) });
                     {
                         let mut m = self.r.model.lock().unwrap();
-                        for p in ids {
+                        for p in &ids {
                             if let PoisonId::Private(_) = p {
-                                self.private_poison.entry(p).or_default().may = true;
+                                self.private_poison.entry(p.clone()).or_default().may = true;
                             } else {
-                                m.poison.entry(p).or_default().may = true;
+                                m.poison.entry(p.clone()).or_default().may = true;
                             }
                         }
+                        // from now on a panic may unwind through this hold at any moment: a
+                        // clear_poison by another thread does not make the state certain again
+                        let tid = self.tid;
+                        m.in_flight[tid] = ids;
                     }
                     self.probe(|p| p.bombs_armed += 1);
                     crate::api::BOMB_ARMED.with(|b| b.set(true));
